@@ -1,7 +1,8 @@
 """Collect independently seeded, self-confirmed changes from /tmp/seed_out into /verif/seeded/<id>/
 (patch.diff, demo.py, meta.txt, meta.json).  Maintainer tool."""
 import json, os, re, shutil, sys
-SRC = "/tmp/seed_out"
+SRC = sys.argv[1] if len(sys.argv) > 1 else "/tmp/seed_out"
+TAG = sys.argv[2] if len(sys.argv) > 2 else ""        # e.g. "r2" -> ids Cxx-r2-1
 DST = "/verif/seeded"
 CHECKS = {  # which checks are expected to be relevant for the sweep
     "C01": ["C01", "C11"], "C02": ["C02", "C03"], "C03": ["C03", "C14"], "C04": ["C04", "C14"],
@@ -19,7 +20,7 @@ for p in sorted(os.listdir(SRC)):
             continue
         c = open(cf).read()
         ok = "DEMO_CLEAN_EXIT=0" in c and "DEMO_PATCHED_EXIT=1" in c and "120 passed" in c
-        sid = "%s-%s" % (p, i)
+        sid = "%s-%s%s" % (p, (TAG + "-") if TAG else "", i)
         if not ok:
             print("skip", sid, c.replace("\n", " ")[:160])
             continue
